@@ -67,6 +67,12 @@ impl<C: GCWorkContext> GCWork<C::VM> for Prepare<C> {
         }
 
         for w in &mmtk.scheduler.worker_group.workers_shared {
+            #[cfg(mmtk_verif)]
+            crate::verif::events::emit(|| crate::verif::events::Ev::PacketAdd {
+                stage: usize::MAX,
+                name: std::any::type_name::<PrepareCollector>(),
+                local: false,
+            });
             let result = w.designated_work.push(Box::new(PrepareCollector));
             debug_assert!(result.is_ok());
         }
@@ -145,6 +151,12 @@ impl<C: GCWorkContext + 'static> GCWork<C::VM> for Release<C> {
         mmtk.scheduler.work_buckets[WorkBucketStage::Release].bulk_add(release_mutator_packets);
 
         for w in &mmtk.scheduler.worker_group.workers_shared {
+            #[cfg(mmtk_verif)]
+            crate::verif::events::emit(|| crate::verif::events::Ev::PacketAdd {
+                stage: usize::MAX,
+                name: std::any::type_name::<ReleaseCollector>(),
+                local: false,
+            });
             let result = w.designated_work.push(Box::new(ReleaseCollector));
             debug_assert!(result.is_ok());
         }
